@@ -461,7 +461,7 @@ def run_c01(args):
     os.environ["VERIF_GEN_PROGRAMS"] = n
     os.environ["VERIF_SEED"] = str(args.seed)
     return generic(args, "C01", workers.c06_worker, [("default", {"gas": False})], confirm_c06,
-                   level="translation_validation", families=["gen", "plumb"],
+                   level="translation_validation", families=["gen", "plumb", "fold", "spec"],
                    extra_task=lambda fam, e: (fam, 0))
 
 
@@ -491,7 +491,7 @@ def run_c05(args):
     os.environ["VERIF_SEED"] = str(args.seed)
     work = common.workdir("C05")
     build_s = common.build_tool()
-    fams = args.families or ["gen", "plumb"]
+    fams = args.families or ["gen", "plumb", "fold", "spec"]
     # compiled the way `cairo-run` does without --available-gas (no gas paths)
     base_cfg = {"optimizations": "disabled", "gas": False}
     variants = C05_VARIANTS_FULL if tier == "thorough" else C05_VARIANTS_QUICK
